@@ -436,6 +436,12 @@ func verifyAndFillConfig(cfg *ResponseConfig, nowMS int) error {
 			return fmt.Errorf("timeShiftBufferDepth %ds is not less than %ds", tsbd, MAX_TIME_SHIFT_BUFFER_DEPTH_S)
 		}
 	}
+	if cfg.TimeSubsDurMS <= 0 {
+		return fmt.Errorf("timesubsdur must be > 0")
+	}
+	if cfg.PeriodsPerHour != nil && (*cfg.PeriodsPerHour <= 0 || *cfg.PeriodsPerHour > 3600) {
+		return fmt.Errorf("periods per hour must be in the interval 1-3600")
+	}
 	if cfg.ContMultiPeriodFlag && cfg.PeriodsPerHour == nil {
 		return fmt.Errorf("period continuity set, but not multiple periods per hour")
 	}
